@@ -59,6 +59,10 @@ VERIFY_REQS = [
     ]),
 ]
 
+# the CtOption a checked constructor returns decides acceptance: through is_none / is_some, or through Option::from(..) + ok_or / match / ?
+# (the switch is then classified as depending on the constructor call itself)
+VALIDITY = ['is_none', 'is_some', '::from_be_bytes', '::from_compressed', '::from_uncompressed']
+
 IDENT_ALTS = [{'gate_callee': ['is_identity']}, {'gate_callee': ['PartialEq'], 'const': ['IDENTITY']}]
 
 # identity / zero exclusion (draft-08 octets_to_signature / octets_to_pubkey / octets_to_proof, ProofVerify)
@@ -80,32 +84,32 @@ IDENTITY_REQS = [
 # decoders: acceptance gated by the checked constructors and by identity / zero exclusion (draft-08 octets_to_*)
 DECODER_REQS = [
     ('bbsplus::keys::BBSplusPublicKey::from_bytes', [
-        {'id': 'point-valid', 'what': 'G2 point validity (curve, subgroup) gates acceptance', 'gate_callee': ['is_none', 'is_some'], 'cover': ['bytes']},
+        {'id': 'point-valid', 'what': 'G2 point validity (curve, subgroup) gates acceptance', 'gate_callee': VALIDITY, 'cover': ['bytes']},
         {'id': 'pk-nonidentity', 'what': 'identity public key refused', 'alts': IDENT_ALTS, 'cover': ['bytes']},
     ]),
     ('bbsplus::keys::BBSplusPublicKey::from_coordinates', [
-        {'id': 'point-valid', 'what': 'G2 point validity gates acceptance', 'gate_callee': ['is_none', 'is_some'], 'cover': ['x', 'y']},
+        {'id': 'point-valid', 'what': 'G2 point validity gates acceptance', 'gate_callee': VALIDITY, 'cover': ['x', 'y']},
         {'id': 'pk-nonidentity', 'what': 'identity public key refused', 'alts': IDENT_ALTS, 'cover': ['x', 'y']},
     ]),
     ('bbsplus::keys::BBSplusSecretKey::from_bytes', [
-        {'id': 'scalar-range', 'what': 'scalar < r gates acceptance', 'gate_callee': ['is_none', 'is_some'], 'cover': ['bytes']},
+        {'id': 'scalar-range', 'what': 'scalar < r gates acceptance', 'gate_callee': VALIDITY, 'cover': ['bytes']},
     ]),
     ('bbsplus::signature::BBSplusSignature::from_bytes', [
-        {'id': 'point-valid', 'what': 'G1 point validity gates acceptance', 'gate_callee': ['is_none', 'is_some'], 'cover': ['data']},
+        {'id': 'point-valid', 'what': 'G1 point validity gates acceptance', 'gate_callee': VALIDITY, 'cover': ['data']},
         {'id': 'A-nonidentity', 'what': 'A = identity refused', 'alts': IDENT_ALTS, 'cover': ['data']},
         {'id': 'e-nonzero', 'what': 'e = 0 refused', 'alts': [{'gate_callee': ['is_zero']}, {'gate_callee': ['PartialEq'], 'const': ['ZERO']}], 'cover': ['data']},
     ]),
     ('bbsplus::proof::BBSplusPoKSignature::from_bytes', [
-        {'id': 'point-valid', 'what': 'G1 point validity gates acceptance', 'gate_callee': ['is_none', 'is_some'], 'cover': ['bytes']},
+        {'id': 'point-valid', 'what': 'G1 point validity gates acceptance', 'gate_callee': VALIDITY, 'cover': ['bytes']},
         {'id': 'points-nonidentity', 'what': 'identity proof points refused', 'alts': IDENT_ALTS, 'cover': ['bytes']},
     ]),
     ('bbsplus::proof::BBSplusZKPoK::from_bytes', [
-        {'id': 'scalar-range', 'what': 'scalar < r gates acceptance', 'gate_callee': ['is_none', 'is_some'], 'cover': ['bytes']},
+        {'id': 'scalar-range', 'what': 'scalar < r gates acceptance', 'gate_callee': VALIDITY, 'cover': ['bytes']},
     ]),
     ('bbsplus::commitment::BBSplusCommitment::from_bytes', [
-        {'id': 'point-valid', 'what': 'G1 point validity gates acceptance', 'gate_callee': ['is_none', 'is_some'], 'cover': ['bytes']},
+        {'id': 'point-valid', 'what': 'G1 point validity gates acceptance', 'gate_callee': VALIDITY, 'cover': ['bytes']},
     ]),
     ('bbsplus::commitment::BlindFactor::from_bytes', [
-        {'id': 'scalar-range', 'what': 'scalar < r gates acceptance', 'gate_callee': ['is_none', 'is_some'], 'cover': ['bytes']},
+        {'id': 'scalar-range', 'what': 'scalar < r gates acceptance', 'gate_callee': VALIDITY, 'cover': ['bytes']},
     ]),
 ]
